@@ -2,7 +2,6 @@ package c14
 
 import (
 	"errors"
-	"fmt"
 	"strings"
 )
 
@@ -15,7 +14,7 @@ type Port int
 
 func (p Port) Validate() error {
 	if p < 1 || p > 65535 {
-		return fmt.Errorf("port %d outside 1..65535", int(p))
+		return errors.New("port number out of range")
 	}
 	return nil
 }
@@ -35,7 +34,7 @@ type Ratio float64
 
 func (r *Ratio) Validate() error {
 	if *r < 0 || *r > 1 {
-		return errors.New("ratio outside 0..1")
+		return errors.New("ratio out of range")
 	}
 	return nil
 }
